@@ -4,7 +4,7 @@
 From Coq Require Import List NArith Bool.
 Import ListNotations.
 
-Inductive marker := VERIF_BEGIN | VERIF_END.
+Inductive marker := VERIF_BEGIN | VERIF_END | VERIF_COUNT.
 
 Section Run.
   Context {C O : Type}.
